@@ -520,6 +520,8 @@ CancelTask(T, u) ==
   THEN [T |-> [T EXCEPT ![u].canc = TRUE, ![u].pc = "done", ![u].out = "cancel"], ok |-> TRUE]
   ELSE IF pc \in {"hdone", "mon"}    \* about to resume: meets the cancellation when it does
   THEN [T |-> [T EXCEPT ![u].canc = TRUE], ok |-> TRUE]
+  ELSE IF pc = "hstop_run"          \* the handler that is calling stop() right now (running): the cancellation stays pending
+  THEN [T |-> [T EXCEPT ![u].canc = TRUE], ok |-> TRUE]
   ELSE [T |-> T, ok |-> FALSE]
 FreeX(T, t) == [u \in DOMAIN T |-> IF u[1] = "x" /\ T[u].owner = t /\ T[u].pc = "done" THEN [T[u] EXCEPT !.pc = "free"] ELSE T[u]]
 \* parallel_handlers frames under cancellation (fix: G7): the owner wakes from `await task` with CancelledError, cancels every
@@ -718,12 +720,13 @@ HDispatch(a, b, ty) ==
 HSuspend(a, how) ==   \* sleep(0) ("yield") or a timed sleep
   /\ InOps(a) /\ task[HT(a)].bud > 0
   /\ how = "sleep" => WithSleep
-  /\ task' = [task EXCEPT ![HT(a)].bud = @ - 1, ![HT(a)].pc = how]
+  \* (a handler that has cancelled its own run loop - stop() of its own bus - carries a pending cancellation: it is delivered here)
+  /\ task' = [task EXCEPT ![HT(a)].bud = @ - 1, ![HT(a)].pc = IF task[HT(a)].canc THEN "cancelled" ELSE how]
   /\ cur' = NoTask
   /\ UNCHANGED <<nev, ev, q, unf, shut, hist, running, idle, semv, depth, lockq, nact, nx, xh, o>>
 
 HAwaitBegin(a, k) ==
-  /\ InOps(a) /\ task[HT(a)].bud > 0 /\ k \in DOMAIN task[HT(a)].kids /\ task[HT(a)].kids[k] # 0
+  /\ InOps(a) /\ task[HT(a)].bud > 0 /\ k \in DOMAIN task[HT(a)].kids /\ task[HT(a)].kids[k] # 0 /\ ~task[HT(a)].canc
   /\ task' = [task EXCEPT ![HT(a)].bud = @ - 1, ![HT(a)].aw = task[HT(a)].kids[k], ![HT(a)].pc = "inl"]
   /\ o' = Obs(Line("AwB") @@ [act |-> a, e |-> task[HT(a)].kids[k]], ev, nev, hist, q)
   /\ UNCHANGED <<nev, ev, q, unf, shut, hist, running, idle, semv, depth, lockq, nact, nx, xh, cur>>
@@ -781,12 +784,45 @@ InlineGiveUp(a) ==  \* 1000 fruitless passes: falls through and returns the even
   /\ UNCHANGED <<nev, ev, q, unf, shut, hist, running, idle, semv, depth, lockq, nact, nx, xh, cur>>
 
 HFinish(a, out) ==  \* return / raise: the handler task ends, its owner is woken
-  /\ \/ InOps(a) /\ out \in {"ret"} \cup (IF WithErrors THEN {"raise"} ELSE {})
+  /\ \/ InOps(a) /\ out \in {"ret"} \cup (IF WithErrors /\ ~task[HT(a)].canc THEN {"raise"} ELSE {})
      \/ cur = HT(a) /\ task[HT(a)].pc = "raising" /\ out = "raise"
-  /\ task' = [task EXCEPT ![HT(a)].pc = "done", ![HT(a)].out = out, ![task[HT(a)].owner].pc = "hdone"]
+  \* (asyncio: a task whose coroutine returns while a cancellation is pending ends *cancelled*, its return value is dropped)
+  /\ task' = [task EXCEPT ![HT(a)].pc = "done", ![HT(a)].out = IF task[HT(a)].canc /\ out = "ret" THEN "cancel" ELSE out, ![task[HT(a)].owner].pc = "hdone"]
   /\ cur' = NoTask
   /\ o' = Obs(Line("HExit") @@ [act |-> a, out |-> out], ev, nev, hist, q)
   /\ UNCHANGED <<nev, ev, q, unf, shut, hist, running, idle, semv, depth, lockq, nact, nx, xh>>
+
+\* stop() called from inside a handler (A.11): same steps as a driver's stop(); when the bus is the handler's own, the run loop that is
+\* cancelled after the bounded wait is waiting for this very handler, so the cancellation comes back to the caller (pending until its
+\* next suspension).  The caller id of the StopB / StopE lines is 1000 + activation.
+HStopBegin(a, b) ==
+  /\ WithStop /\ InOps(a) /\ task[HT(a)].bud > 0
+  /\ task' = [task EXCEPT ![HT(a)].bud = @ - 1, ![HT(a)].pc = "hstop_go", ![HT(a)].fh = b]
+  /\ o' = Obs(Line("StopB") @@ [d |-> 1000 + a, b |-> b, tmo |-> -1, running |-> running[b]], ev, nev, hist, q)
+  /\ UNCHANGED <<nev, ev, q, unf, shut, hist, running, idle, semv, depth, lockq, nact, nx, xh, cur>>
+HStopGo(a) ==
+  /\ cur = HT(a) /\ task[HT(a)].pc = "hstop_go"
+  /\ LET b == task[HT(a)].fh IN
+     IF ~running[b]
+     THEN /\ task' = [task EXCEPT ![HT(a)].pc = "ops", ![HT(a)].fh = ""]
+          /\ o' = Obs(Line("StopE") @@ [d |-> 1000 + a, b |-> b, exc |-> ""], ev, nev, hist, q)
+          /\ UNCHANGED <<running, shut, idle, cur>>
+     ELSE /\ running' = [running EXCEPT ![b] = FALSE] /\ shut' = [shut EXCEPT ![b] = TRUE]
+          /\ task' = [task EXCEPT ![HT(a)].pc = "hstop_wait", ![RL(b)].pc = IF @ = "poll" /\ q[b] = <<>> THEN "pollx" ELSE @]
+          /\ cur' = NoTask
+          /\ UNCHANGED <<idle, o>>
+  /\ UNCHANGED <<nev, ev, q, unf, hist, semv, depth, lockq, nact, nx, xh>>
+HStopWaitEnd(a) ==
+  /\ cur = NoTask /\ task[HT(a)].pc = "hstop_wait"
+  /\ LET b == task[HT(a)].fh
+         c == CancelRLFx(b, [task EXCEPT ![HT(a)].pc = "hstop_run"], lockq) IN
+     /\ c.ok
+     /\ task' = [c.T EXCEPT ![HT(a)].pc = "ops", ![HT(a)].fh = ""]
+     /\ lockq' = c.lq
+     /\ idle' = [idle EXCEPT ![b] = TRUE]
+     /\ o' = Obs(Line("StopE") @@ [d |-> 1000 + a, b |-> b, exc |-> ""], ev, nev, hist, q)
+  /\ cur' = HT(a)
+  /\ UNCHANGED <<nev, ev, q, unf, shut, hist, running, semv, depth, nact, nx, xh>>
 
 \* ------------------------------------------------------------------------
 \* external drivers
@@ -946,6 +982,7 @@ NextCore ==
         \/ HSuspend(a, "yield") \/ HSuspend(a, "sleep") \/ HFinish(a, "ret") \/ HFinish(a, "raise")
         \/ \E b \in B : InlineTake(a, b) \/ \E ty \in Range(Types) : HDispatch(a, b, ty)
         \/ \E k \in 1..MaxEv : HAwaitBegin(a, k)
+        \/ HStopGo(a) \/ HStopWaitEnd(a) \/ \E b \in B : HStopBegin(a, b)
   \/ \E i \in 1..NDrv :
         \/ DAwaitEnd(i) \/ DIdleStart(i) \/ DIdleJoin(i) \/ DIdleFlag(i) \/ DIdleRecheck(i)
         \/ DIdleTimeout(i) \/ DStopGo(i) \/ DStopWaitEnd(i) \/ DExpectGo(i) \/ DExpectEnd(i, TRUE) \/ DExpectEnd(i, FALSE)
